@@ -2,7 +2,7 @@
 # MANIFEST.setup_cmd: regenerate the source-derived model parts and build the whole Coq development (full .vo)
 set -e
 cd "$(dirname "$0")"
-export PYTHONHASHSEED=0 PYTHONPATH=/repo PYTHONDONTWRITEBYTECODE=1 PYTHONWARNINGS=ignore
+export PYTHONHASHSEED=0 PYTHONPATH="${VERIF_REPO:-/repo}" PYTHONDONTWRITEBYTECODE=1 PYTHONWARNINGS=ignore
 mkdir -p .work evidence replay
 /venv/bin/python -m harness.regen_all 2> >(grep -v 'conda.cli.condarc' >&2)
 cd coq
